@@ -35,6 +35,9 @@ import (
 // The typesystem is built by the real typesystem.NewAndValidate. The reference predicate below only reads
 // the model proto (type definitions, relation metadata, rewrites, condition table).
 
+// VerifK18Model: the model named by the job parameter "model" (exported for the write-command harness).
+func VerifK18Model() *openfgav1.AuthorizationModel { return verifK18Model() }
+
 func verifK18Model() *openfgav1.AuthorizationModel {
 	name := vt.Param("model", "k18mix")
 	if name == "k18mix" {
@@ -179,7 +182,10 @@ func VerifK18Parse(s string) VerifK18Ent {
 		end = sc.firstHash
 		e.Userset = true
 		e.Rel = s[sc.firstHash+1:]
-		if e.Rel == "" {
+		// a userset names a concrete object and a relation: '*' is reserved for the typed wildcard `type:*`
+		// and occurs neither in the id nor in the relation of a userset (pkg/tuple's grammar for usersets,
+		// `type:[^#:*...]+#[^:#*...]+` in its own fuzz oracle)
+		if e.Rel == "" || sc.stars > 0 {
 			return VerifK18Ent{}
 		}
 	}
@@ -348,11 +354,6 @@ func (t VerifK18Tuple) String() string {
 // VerifK18Want is the reference verdict for ValidateTupleForWrite.
 func VerifK18Want(m *openfgav1.AuthorizationModel, t VerifK18Tuple) bool {
 	o, u := VerifK18Parse(t.Obj), VerifK18Parse(t.User)
-	if vt.ParamInt("starquirk", 0) == 1 {
-		// documented deviation (see the C18 note in the spec): usersets whose id contains '*' without being
-		// the wildcard are taken out of the input space
-		vt.Assume(!(u.OK && u.Userset && u.Stars > 0 && u.ID != "*"))
-	}
 	return VerifK18WellFormed(m, t.Rel, o, u) && VerifK18ModelAllows(m, o.Typ, t.Rel, u, t.HasCond, t.Cond)
 }
 
@@ -391,14 +392,14 @@ func verifK18Check(m *openfgav1.AuthorizationModel, ts *typesystem.TypeSystem, t
 	}
 	vt.Reach("validated")
 	if err == nil {
-		vt.Reach("accepted")
 		vt.Assert(want, "ValidateTupleForWrite accepted a tuple the model does not allow")
+	} else {
+		vt.Reach("rejected") // every free position has malformed values, the base tuples (free=0) never get here
 	}
 	if want {
-		vt.Reach("allowed")
 		vt.Assert(err == nil, "ValidateTupleForWrite rejected a tuple the model allows")
 	}
-	if vt.ParamInt("read", 1) == 1 {
+	if vt.ParamInt("read", 0) == 1 {
 		o, u := VerifK18Parse(t.Obj), VerifK18Parse(t.User)
 		if verifK18StoredShape(o, u) {
 			keep := FilterInvalidTuples(ts)(tk)
@@ -531,32 +532,87 @@ func VerifK18bFree() {
 			t.Cond = v.Conds[cv-1]
 		}
 	}
-	switch free {
-	case 0:
+	if free == 0 {
 		if vt.ParamInt("conds", 0) == 0 && !b.computed {
+			vt.Reach("base-tuple")
 			vt.Assert(VerifK18Want(m, t), "reference rejects a tuple built from a type restriction")
 		}
-	case 1:
-		t.Obj = verifK18Sym("s", n)
-	case 2:
-		t.Obj = b.ot + ":" + verifK18Sym("s", n)
-	case 3:
-		t.Rel = verifK18Sym("s", n)
-	case 4:
-		t.User = verifK18Sym("s", n)
-	case 5:
-		t.User = b.user(verifK18Sym("s", n), b.uid, b.urel)
-	case 6:
-		t.User = b.user(b.ut, verifK18Sym("s", n), b.urel)
-	case 7:
-		t.User = b.ut + ":" + b.uid + "#" + verifK18Sym("s", n)
-	case 8:
-		t.HasCond = true
-		t.Cond = verifK18Sym("s", n)
-	default:
-		t.Obj = verifK18Sym("s", n) + ":1"
+	} else {
+		t = verifK18Place(b, t, free, verifK18Sym("s", n))
 	}
 	verifK18Check(m, ts, t, false, nil)
+}
+
+// verifK18Place puts s at the free position of a base tuple.
+func verifK18Place(b verifK18Base, t VerifK18Tuple, free int, s string) VerifK18Tuple {
+	switch free {
+	case 1:
+		t.Obj = s
+	case 2:
+		t.Obj = b.ot + ":" + s
+	case 3:
+		t.Rel = s
+	case 4:
+		t.User = s
+	case 5:
+		t.User = b.user(s, b.uid, b.urel)
+	case 6:
+		t.User = b.user(b.ut, s, b.urel)
+	case 7:
+		t.User = b.ut + ":" + b.uid + "#" + s
+	case 8:
+		t.HasCond = true
+		t.Cond = s
+	default:
+		t.Obj = s + ":1"
+	}
+	return t
+}
+
+// K18d: the free position ranges over every string of up to `chars` symbols of an alphabet of separator,
+// wildcard, blank, control, multi-byte and invalid-UTF-8 symbols (concrete enumeration; complements K18b at
+// the positions where a symbolic string in the middle of a field is too expensive for the engine).
+var verifK18Alphabet = []string{"a", "1", "*", ":", "#", "@", " ", "\t", "\x00", "\x7f", "\u0085", "é", "\xc3", "\xff"}
+
+func VerifK18dAlphabet() {
+	m := verifK18Model()
+	ts := VerifK18TypeSystem(m)
+	if ts == nil {
+		return
+	}
+	bases := verifK18Bases(m)
+	chars := vt.ParamInt("chars", 2)
+	strs := []string{""}
+	for lo, k := 0, 0; k < chars; k++ {
+		hi := len(strs)
+		for _, p := range strs[lo:hi] {
+			for _, a := range verifK18Alphabet {
+				strs = append(strs, p+a)
+			}
+		}
+		lo = hi
+	}
+	var bad [4]int
+	n := 0
+	pinned := vt.ParamInt("free", -1)
+	for free := 1; free <= 9; free++ {
+		if pinned >= 0 && free != pinned {
+			continue
+		}
+		for _, b := range bases {
+			base := VerifK18Tuple{Obj: b.ot + ":1", Rel: b.rel, User: b.user(b.ut, b.uid, b.urel), HasCond: b.cond != "", Cond: b.cond}
+			for _, s := range strs {
+				verifK18Check(m, ts, verifK18Place(b, base, free, s), true, &bad)
+				n++
+			}
+		}
+	}
+	vt.Reach("enumerated")
+	vt.Assert(n > 0, "nothing enumerated")
+	vt.Assert(bad[0] == 0, "ValidateTupleForWrite accepted a tuple the model does not allow")
+	vt.Assert(bad[1] == 0, "ValidateTupleForWrite rejected a tuple the model allows")
+	vt.Assert(bad[2] == 0, "FilterInvalidTuples keeps a stored tuple the model does not allow")
+	vt.Assert(bad[3] == 0, "FilterInvalidTuples drops a stored tuple the model allows")
 }
 
 // ---- K18c: condition context of a conditioned tuple ----
